@@ -159,6 +159,11 @@ def exTable : State :=
 example : (gateFire exTable (some 0) true).2 = .opened ∧ (gateFire exTable (some 0) true).1.gameCount = 1 ∧
     (gateFire (close exTable) (some 0) true).2 = .nothing := by decide
 
+/-- the delayed handler of `continueGame` looks for a closed, then for a released table *when it runs* — its first two
+statements (regenerated from table_engine_stage.go); `nextMove` does the same -/
+theorem C07_continue_handler_head_fact : Facts.continueHandlerHead =
+    ["if te.table.State.Status == TableStateStatus_TableClosed { return nil }", "if te.isReleased { return nil }"] := by decide
+
 /-- with a continue interval the continue step is two happenings — `continueGame` up to arming the timer, and the delayed
 handler — and other calls may land in between; with nothing in between they are the one-piece step -/
 theorem C07_continue_is_reset_then_tick (s : State) (ex : Bool) (hok : (continueGame s ex).2 ≠ .failed) :
